@@ -116,7 +116,8 @@ class DataStream(object):
         """
         Add time before next set of samples.
         """
-        self.set_time(self.t_start + t)
+        # A single-precision step would round the whole clock to single precision
+        self.set_time(self.t_start + float(t))
         
     def update_noise(self, stats_calc_num_samples=10000):
         """
